@@ -21,6 +21,10 @@ Definition errval (e : err0) : jv := match e with EVal v => v | EMsg m => VStr m
 
 Definition vname := N.   (* $name *)
 Definition lname := N.   (* label name *)
+Definition fname := N.   (* function name *)
+
+(* a formal parameter of a function definition: a filter (def f(g): ...) or a value (def f($x): ...) *)
+Inductive param := PF (g : fname) | PV (x : vname).
 
 (* native functions reachable from F through opcall *)
 Inductive fn0 := F0Error | F0Length.
@@ -45,7 +49,9 @@ Inductive query :=
 | QBind (src : query) (x : vname) (body : query)
 | QVar (x : vname)
 | QCall0 (f : fn0)
-| QBinop (o : binop) (a b : query).   (* a o b : the operands are compiled as argument closures *)
+| QBinop (o : binop) (a b : query)    (* a o b : the operands are compiled as argument closures *)
+| QDef (f : fname) (ps : list param) (body rest : query)   (* def f(ps): body; rest *)
+| QCallF (f : fname) (args : list query).                  (* f(args): a user-defined function or a filter parameter *)
 
 (* number of anonymous variables the compiler allocates while compiling a literal
    (compileArray / compileObject call newVariable before folding) *)
